@@ -66,7 +66,7 @@ TEXT = {
         "technique": "Coq proof (heap-prefix frame lemma for every deriving operation; ownership invariant of backing arrays under every program) + differential correspondence check with growth histories",
         "text": "C09_no_write: every deriving/observing operation leaves the old heap as a prefix of the new one (no pre-existing cell is written); "
                 "C09_results_own_storage: with real slice semantics and any growth policy, results of SubList/Concat own their arrays and every later mutation "
-                "changes only its own list (simulation to the sequence model); C09_prefix_concat_refuted: the pre-fix Concat is expressible in the model and breaks both. "
+                "changes only its own list (simulation to the sequence model); C09_created_is_fresh / C09_mutating_the_result_leaves_old_cells / C09_mutating_old_containers_leaves_the_result: in the heap model every container handed out by SubList/Concat/Merge/Pluck/Keys/Values/Clone is a new cell, any later sequence of mutators on it leaves all earlier cells unchanged and vice versa; C09_prefix_concat_refuted: the pre-fix Concat is expressible in the model and breaks both. "
                 "Programs 'grow -> derive -> mutate any participant' are run against the code on every check.",
         "note": "holds after the repair of D5 (fix: commit 7931f9b); Filter*/Map*/Reduce*/typed slices are covered as pure functions in C14; no axioms.",
     },
